@@ -50,6 +50,14 @@ func probe(dir, spec string) {
 		fmt.Println(err)
 		return
 	}
+	if spec == "inventory" {
+		for _, f := range w.ProdFuncs {
+			if f.Parent() == nil && f.Synthetic == "" {
+				fmt.Println("INV " + w.FuncKey(f))
+			}
+		}
+		return
+	}
 	parts := strings.Split(spec, ":")
 	f := w.Func(parts[0], parts[1], parts[2])
 	if f == nil {
